@@ -557,17 +557,40 @@ impl Wal {
 
         let offset = file.metadata()?.len();
         file.seek(SeekFrom::End(0))?;
-        #[cfg(nervusdb_verif)]
-        crate::verif_io::step("wal_write", &self.path, offset, 4)?;
-        file.write_all(&len.to_le_bytes())?;
-        #[cfg(nervusdb_verif)]
-        crate::verif_io::step("wal_write", &self.path, offset + 4, 4)?;
-        file.write_all(&crc.to_le_bytes())?;
-        #[cfg(nervusdb_verif)]
-        crate::verif_io::step("wal_write", &self.path, offset + 8, body.len() as u64)?;
-        file.write_all(&body)?;
-        file.flush()?;
+        let written = (|| -> Result<()> {
+            #[cfg(nervusdb_verif)]
+            crate::verif_io::step("wal_write", &self.path, offset, 4)?;
+            file.write_all(&len.to_le_bytes())?;
+            #[cfg(nervusdb_verif)]
+            crate::verif_io::step("wal_write", &self.path, offset + 4, 4)?;
+            file.write_all(&crc.to_le_bytes())?;
+            #[cfg(nervusdb_verif)]
+            crate::verif_io::step("wal_write", &self.path, offset + 8, body.len() as u64)?;
+            file.write_all(&body)?;
+            file.flush()?;
+            Ok(())
+        })();
+        if let Err(e) = written {
+            // A failed write may have left the first part of the frame in the file. Appends go to
+            // the end of the file, so those bytes would end up in front of every later record and
+            // make the rest of the log unreadable: cut them off again (best effort).
+            let _ = file.set_len(offset);
+            return Err(e);
+        }
         Ok(offset)
+    }
+
+    /// Cut the log back to `offset` (the start of a record returned by [`Wal::append`]).
+    ///
+    /// Used to take a transaction out of the log again when its commit could not be made durable.
+    pub fn truncate_to(&mut self, offset: u64) -> Result<()> {
+        let Some(file) = self.file.as_mut() else {
+            return Err(Error::WalProtocol("wal file is closed"));
+        };
+        if file.metadata()?.len() > offset {
+            file.set_len(offset)?;
+        }
+        Ok(())
     }
 
     pub fn fsync(&mut self) -> Result<()> {
